@@ -111,8 +111,8 @@ where
     }
 }
 
-impl<T: ?Sized + ToSig<S>, W: ZeroCopy + Word, S: Sig, E: ShardEdge<S, 3>>
-    VFilter<W, VFunc<T, W, BitFieldVec<W>, S, E>>
+impl<T: ?Sized + ToSig<S>, W: ZeroCopy + Word, B: AsRef<[W]>, S: Sig, E: ShardEdge<S, 3>>
+    VFilter<W, VFunc<T, W, BitFieldVec<W, B>, S, E>>
 where
     u64: CastableInto<W>,
 {
